@@ -22,7 +22,7 @@ EXHAUSTIVE = {"quick": ["R=Q=all strings len<=4 over AC, k=1..5 (every (q,r) inc
                         "R=all len<=3 over ACD, Q=all len<=2 over ACD, k=1..3"],
               "thorough": ["R=Q=all strings len<=6 over AC, k=1..4", "R=Q=all strings len<=4 over AC, k=1..5",
                            "R=Q=all len<=3 over ACD, k=1..4", "LookupDB: R=Q=all len<=2 over ACD k=1..3"]}
-REQUIRE = {"progress_bar_lookups": 11, "hits_q_equals_r": 50, "hits_d0": 50, "queries_without_hit": 20, "lookups_after_first_on_same_build": 30,
+REQUIRE = {"cross_big_cases": 1, "progress_bar_lookups": 11, "hits_q_equals_r": 50, "hits_d0": 50, "queries_without_hit": 20, "lookups_after_first_on_same_build": 30,
            "invariant_evaluations": 100, "failed_lookups_then_continued": 5, "injected_faults_then_continued": 3,
            "lookupdb_cases": 10, "fresh_oneshot_comparisons": 30, "len_Q_ne_len_R": 20, "lookupdb_radius_changes": 10, "same_object_as_both_collections": 5}
 SHARDS = {"quick": 6, "thorough": 16}
